@@ -114,6 +114,20 @@ Theorem C11_responses_column_function :
 Proof. exact responses_column_function. Qed.
 Print Assumptions C11_responses_column_function.
 
+(* finishing in the response phase: the test DistKeyGenerator.completeSuccess
+   (no complaint left, so no justification phase is needed) is a function of
+   the eviction flags and of the rows of the dealers that are not evicted.  The
+   cells a node holds in the row of a dealer it evicted - it sends no response
+   about such a dealer, so nobody else knows them - do not decide whether the
+   node finishes early.  (Before the repair of dkg.go they did, and two honest
+   nodes could finish in different phases with different QUAL: failure keys
+   pedersen-fresh/agreement-qual, agreement-commits of harness/cmd/c11.) *)
+Theorem C11_finish_ignores_evicted_rows :
+  forall q (s1 s2 : st q),
+    live_view q s1 = live_view q s2 -> complete_success q s1 = complete_success q s2.
+Proof. exact complete_success_live_view. Qed.
+Print Assumptions C11_finish_ignores_evicted_rows.
+
 (* disqualification: a dealer is in the output QUAL of the fresh DKG iff it
    was never evicted (invalid session id / threshold / indices / duplicate
    bundles / >= t complaints / invalid justification), no complaint against it
